@@ -297,6 +297,8 @@ class Rig:
             pm.update()
         elif k == "pdo_update":
             pm.update()
+        elif k == "pdo_poke":
+            pm.data[:] = bytes(op["data"])
         elif k == "pdo_rx":
             self.hub.inject(Frame(pm.cob_id, bytes(op["data"]), ts=op["ts"]))
         else:
@@ -458,6 +460,26 @@ def enum_sync(max_len):
     for mod in (True, False):
         for seq in _sequences(alpha, max_len):
             yield {"family": "enum/sync", "mod": mod, "nodes": [{"id": 1, "hb": 0}], "ops": seq}
+
+
+def directed_same_value():
+    """A running map whose data was changed in place without a data-update call, then a write of the
+    value the field already holds: a data update like any other - the task takes over the map's data."""
+    for mod in (True, False):
+        for side, node, a in (("L", {"id": 5, "hb": 0, "tpdo": [{"no": 1, "cob": 0x185, "setup": "direct",
+                                                              "entries": [E(U8), E(U16)]}]},
+                               {"side": "L", "node": 5, "map": 1}),
+                              ("R", {"id": 9, "hb": 0, "rpdo": [{"no": 1, "cob": 0x209, "setup": "direct",
+                                                              "entries": [E(U8), E(U16)]}]},
+                               {"side": "R", "node": 9, "map": 1})):
+            for data, var, v in ((bytes([0x34, 0x12, 0x01]), 0, 0x34), (bytes([7, 0, 0]), 1, 0),
+                                 (bytes([0, 0xFF, 0xFF]), 0, 0)):
+                yield {"family": "directed/same-value", "mod": mod, "nodes": [node], "ops": [
+                    {"op": "pdo_start", "p": 0.1, **a}, {"op": "pdo_poke", "data": data, **a},
+                    {"op": "pdo_write", "var": var, "v": v, **a}]}
+                yield {"family": "directed/same-value", "mod": mod, "nodes": [node], "ops": [
+                    {"op": "pdo_poke", "data": data, **a}, {"op": "pdo_start", "p": 0.1, **a},
+                    {"op": "pdo_poke", "data": bytes(3), **a}, {"op": "pdo_update", **a}]}
 
 
 def enum_pdo(max_len):
@@ -673,7 +695,7 @@ def _pdo_op(draw, model, key):
     if m.layout:
         kinds += ["write"] * 5
     if len(m.data):
-        kinds += ["assign"] * 2
+        kinds += ["assign"] * 2 + ["poke"]
     if connected:
         kinds += ["start"] * 5
         if valid_period(m.period):
@@ -704,12 +726,21 @@ def _pdo_op(draw, model, key):
         off, bits, dt = m.layout[var]
         lo, hi = field_range(dt, bits)
         v = pick(draw, [lo, hi, 0, 1, min(hi, 2)]) if draw(_BOOL) else draw(_ints(lo, hi))
+        if draw(_ints(0, 3)) == 0:
+            # the value the field holds already (e.g. after a reception or an assignment): still a data
+            # update - the running task takes over the map's current data
+            cur = (int.from_bytes(bytes(m.data), "little") >> off) & ((1 << bits) - 1)
+            if lo < 0 and cur >> (bits - 1):
+                cur -= 1 << bits
+            v = cur
         return {"op": "pdo_write", "var": var, "v": v, **a}
     if kind == "assign":
         n = len(m.data)
         which = draw(_ints(0, 5))
         data = m.data if which == 0 else bytes(n) if which == 1 else draw(_bin(n))
         return {"op": "pdo_assign", "data": data, "rebind": draw(_BOOL), **a}
+    if kind == "poke":
+        return {"op": "pdo_poke", "data": draw(_bin(len(m.data))), **a}
     if kind == "rx":
         n = len(m.data)
         ts = round((m.last_ts or 100.0) + pick(draw, ([0.001, 0.01, 0.25, 1.0, 3.5])), 6)
@@ -793,6 +824,7 @@ def search(ctx):
     ctx.enumerate(enum_hb(4 if thorough else 3), f"heartbeat: all op sequences up to length {4 if thorough else 3}")
     ctx.enumerate(enum_pdo(5 if thorough else 3), f"pdo: all op sequences up to length {4 if thorough else 2} on two map variants, length "
                   f"{5 if thorough else 3} dealt alternately to the variants")
+    ctx.enumerate(directed_same_value(), "reception on a running map, then a write of the value already there")
     # random histories in rounds, so that an exhausted time budget stops the generation as well
     rounds, per_round = (12, 1000) if thorough else (4, 400)
     for k in range(rounds):
